@@ -427,7 +427,7 @@ pub fn property_of(entry: &str) -> &'static str {
 /// C03-C07 layout replay: every shape x `reps` random server states through the real entry point.
 pub fn replay_layouts(layouts: &LayoutSet, protos: &[&str], seed: u64, reps: usize, rep: &mut Report) {
     let mut rng = StdRng::seed_from_u64(seed);
-    for l in &layouts.all {
+    for l in layouts.all.iter() {
         let p = l["proto"].as_str().unwrap();
         if !protos.contains(&p) {
             continue;
